@@ -168,6 +168,24 @@ func nodeInstrs(code []byte) (is []GInstr, halted bool) {
 	return is, false
 }
 
+// haltCount: the number of HALT instructions in a node's code (-1 when it does not decode). A node with more than one HALT
+// renders pages from different segments of its code, each with its own menu declarations.
+func haltCount(code []byte) int {
+	n := 0
+	b := code
+	for len(b) >= 2 {
+		s, rest, err, p := decodeStep(b)
+		if err != nil || p != nil {
+			return -1
+		}
+		if gi, ok := parseGInstr(s); ok && gi.Op == "HALT" {
+			n++
+		}
+		b = rest
+	}
+	return n
+}
+
 // capacityNeverExceeded: the cache capacity can hold the longest value of every symbol of the application at once.
 func (ec *eCase) capacityNeverExceeded() bool {
 	if ec.cache == 0 {
@@ -653,7 +671,8 @@ func engineOracles(c *Ctx, ec *eCase, recs []reqRec) {
 		}
 		// ---- C02: on every page but the first of a node that declares MPREV, the previous entry is offered
 		if r.x == "ok" && r.f == "ok" && r.cont && r.idx > 0 && len(r.path) > 0 && ec.wf && ec.out > 0 {
-			if is, halted := nodeInstrs(ec.nodes[r.path[len(r.path)-1]]); halted {
+			// (a node with a second HALT renders its later pages from code that need not declare the entry again)
+			if is, halted := nodeInstrs(ec.nodes[r.path[len(r.path)-1]]); halted && haltCount(ec.nodes[r.path[len(r.path)-1]]) == 1 {
 				for _, gi := range is {
 					if gi.Op != "MPREV" {
 						continue
